@@ -515,6 +515,15 @@ def _params_for(name, rng):
     return [_angle(rng)] if name in ("rzz", "rzx", "ryy", "crx") else []
 
 
+def insert_desc_op(ops, pos, op):
+    """insert an instruction description, keeping the references to earlier pre-placed gates pointing at the same gates"""
+    ops.insert(pos, op)
+    for o in ops:
+        for key in ("share", "same"):
+            if key in o and o[key] >= pos:
+                o[key] += 1
+
+
 def rand_desc(rng, nq, ngates, p_pre=0.3, p_py=0.2, p_cw=0.0, barriers=True, srcs=None, hist=True, nc=0):
     """2-4 qubits; cx / rzz / swap made natively, some gates appended as Python objects, optional pre-placed
     TwoQubitQPDGate instances (sometimes two gates sharing ONE basis object), CutWire markers, a barrier."""
@@ -559,12 +568,8 @@ def rand_desc(rng, nq, ngates, p_pre=0.3, p_py=0.2, p_cw=0.0, barriers=True, src
         ops.append(dict(g="barrier", q=list(range(nq))))
     if nc:
         for _ in range(int(rng.integers(1, 3))):
-            pos = int(rng.integers(0, len(ops) + 1))
-            ops.insert(pos, dict(g="measure", q=[int(rng.integers(0, nq))], c=[int(rng.integers(0, nc))]))
-            for o in ops:                     # keep the references to earlier pre-placed gates pointing at the same gates
-                for key in ("share", "same"):
-                    if key in o and o[key] >= pos:
-                        o[key] += 1
+            insert_desc_op(ops, int(rng.integers(0, len(ops) + 1)),
+                           dict(g="measure", q=[int(rng.integers(0, nq))], c=[int(rng.integers(0, nc))]))
         return dict(nq=nq, nc=nc, ops=ops)
     return dict(nq=nq, ops=ops)
 
@@ -1179,7 +1184,7 @@ def generate(rng, tier, outdir):
         nq = int(rng.integers(2, 5))
         cd = rand_desc(rng, nq, int(rng.integers(1, 7)), p_pre=0.3 if it % 3 != 1 else 0.0, p_py=0.3)
         if it % 2 == 0:
-            cd["ops"].insert(int(rng.integers(0, len(cd["ops"]) + 1)), dict(g="barrier", q=list(range(nq))))
+            insert_desc_op(cd["ops"], int(rng.integers(0, len(cd["ops"]) + 1)), dict(g="barrier", q=list(range(nq))))
         # labels that keep every multi-qubit instruction inside one partition: one label, or automatic
         g.case("separate", dict(circuit=cd, labels=None if it % 3 else tl([LABEL_POOL[int(rng.integers(0, len(LABEL_POOL)))]] * nq)))
 
